@@ -87,7 +87,7 @@ def classify(o):
     if o['ub']:
         return {'kind': 'undefined-behaviour'}, None
     T = o['tuples']
-    bad = [r for r in o['runs'] if any(T[m]['o'] != 'more' for m in r['mid']) or not H.same(T[r['fin']], T[o['one']])]
+    bad = o['runs']           # the deviating runs (h1parse_common.compact)
     if not bad:
         return {'kind': 'other'}, None
     kinds = [(run_class(o, r), r) for r in bad]
@@ -107,7 +107,7 @@ def run(ctx):
     cs, parts = gen(ctx)
     ctx.log('%d cases' % len(cs))
     outs = H.run_cases(ctx, exe, cs)
-    nruns = sum(len(o['runs']) for o in outs)
+    nruns = sum(o['nruns'] for o in outs)
     ctx.log('driver made %d segmented runs' % nruns)
     prej, irej = H.conformance(ctx, 'Conf_RequestHead', outs, 'reqhead')
     ctx.log('TLC evaluated %d cases: P-rejected %d, I-rejected %d' % (len(outs), len(prej), len(irej)))
@@ -131,14 +131,14 @@ def run(ctx):
                 bytes(outs[i]['in'])[:80], outs[i]['relaxed'], outs[i]['limit'], H.tuple_text(outs[i]['tuples'][outs[i]['one']])))
     ctx.cov['impl_steps'] = nruns + len(outs)
     ctx.cov['segmented_runs'] = nruns
-    ctx.cov['impl_distinct'] = sum(1 for o in outs if o['runs'] and o['tuples'][o['one']]['o'] != 'more')
+    ctx.cov['impl_distinct'] = sum(1 for o in outs if o['nruns'] and o['tuples'][o['one']]['o'] != 'more')
     ctx.cov['generated'] = parts
     ctx.cov['by_outcome'] = H.outcome_counts(outs)
     ctx.cov['p_rejected_by_class'] = byclass
     ctx.cov['ub_reports'] = sum(1 for o in outs if o['ub'])
     for o in (outs[0], outs[len(outs) // 3], outs[-1]):
-        ctx.sample({'input': bytes(o['in'])[:100].decode('latin-1'), 'relaxed': o['relaxed'], 'limit': o['limit'], 'runs': len(o['runs']),
-                    'first_run_cuts': (o['runs'][0]['cuts'][:8] if o['runs'] else []), 'one_shot': H.tuple_text(o['tuples'][o['one']])})
+        ctx.sample({'input': bytes(o['in'])[:100].decode('latin-1'), 'relaxed': o['relaxed'], 'limit': o['limit'], 'runs': o['nruns'],
+                    'first_run_cuts': o['first_cuts'], 'one_shot': H.tuple_text(o['tuples'][o['one']])})
     ctx.cov['rule'] = ('request skeleton with at most k deviating slots, every token sequence of the MC_RequestHead domain up to 3 (thorough: 4) tokens, request_header_max_size lattice (every limit up to input length + 15), single-byte '
                        'mutations of valid heads, seeded random mutants: each delivered at every 2-way split point and one byte at a time; large heads '
                        '(up to ~10 KiB, limits 64..65536) at 8 random 2..5-way segmentations. evaluations = parser runs (one-shot + segmented). '
